@@ -919,6 +919,9 @@ fn optic_checkpoint_probe(out: &mut Out, path: &str, rt: &Rt, engine: &Engine, i
             // the checkpoint at cursor coordinate c holds the state after entries 0..c-1, so it lies at or
             // below every t >= c
             for t in c..info.len {
+                if t > c && t + 1 < info.len {
+                    out.c("checkpoint_probe_interior_coordinate_above_interior_checkpoint", 1);
+                }
                 let ats = vec![
                     CoordinateAt::Tick(wt(t)),
                     CoordinateAt::Provenance(ProvenanceRef { worldline_id: *w, worldline_tick: wt(t), commit_hash: info.entries[t as usize].2 }),
@@ -1439,6 +1442,12 @@ fn main() {
     s2.push(Op::Ingest(CHILD, 4));
     s2.push(Op::Ingest(1, 4));
     explore(&r, &mut g, &mut seen, &s2, seed_depth, true, "from_overlap_seed");
+    // S3 = a single worldline with three committed ticks: two more ops make it four, so readings at
+    // interior coordinates above an interior checkpoint (checkpoint c < coordinate t < tip) are taken
+    // in a state AND in a descendant with a longer tail — the checkpoint-plus-tail witness of an
+    // explicit coordinate must not follow the live tip
+    let s3 = [Op::Ingest(1, 2), Op::Tick, Op::Ingest(1, 3), Op::Tick, Op::Ingest(1, 0), Op::Tick];
+    explore(&r, &mut g, &mut seen, &s3, 2, true, "from_long_history_seed");
 
     r.counter("binding_cache_entries", g.bound.len() as u64);
     r.counter("binding_rechecks_in_other_states", g.bound_rechecks);
@@ -1469,5 +1478,6 @@ fn main() {
     r.guard("bounded_readings_within_budget_seen", r.counter_value("bounded_readings_within_budget") > 0);
     r.guard("nonempty_truth_channels_read", g.payloads.get("TruthChannels").map_or(0, |s| s.len()) >= 3);
     r.guard("optic_reads_above_a_checkpoint_bound", r.counter_value("checkpoint_probe_readings") > 0 && r.counter_value("optic_checkpoint_reads_recorded_for_binding") > 0);
+    r.guard("interior_coordinate_above_interior_checkpoint_probed", r.counter_value("checkpoint_probe_interior_coordinate_above_interior_checkpoint") > 0);
     r.finish();
 }
